@@ -8,8 +8,11 @@ NFT_RND = T([dict(n=8, len=30, procs=6, cfg="users=3"), dict(n=5, len=35, procs=
             [dict(n=80, len=40, procs=10, cfg="users=3"), dict(n=50, len=60, procs=4, cfg="users=4")])
 NFT_GEN = T([dict(cfg="GEN_NFT.cfg", num=8, depth=16, seeds=6)],
             [dict(cfg="GEN_NFT.cfg", num=60, depth=20, seeds=14)])
-NFT_MC = T([dict(cfg="MC_NFT.cfg", timeout=900)], [dict(cfg="MC_NFT_big.cfg", timeout=3400)])
+NFT_MC = T([dict(cfg="MC_NFT.cfg", timeout=900, heap="4g")], [dict(cfg="MC_NFT_big.cfg", timeout=3400, heap="4g")])
 NFT_SCN = [dict(file="scenarios/nft_coverage.ndjson", cfg="users=3")]
+
+# histories recorded (VERIF_RECORD_DIR) for the cross-module checks C11 / C12
+RECORD = [dict(binary="nft", n=T(3, 12), len=30, cfg="users=3")]
 
 PROPS = {
     "C14": ModuleCheck("nft", "NFT.tla", "NFTTrace.tla", "NFTTrace.cfg", NFT_CLAUSES,
